@@ -196,7 +196,7 @@ Proof.
   destruct (comp_ensure_space_ok LO c1 L1 (c_num o) c2 e2 HI1 E2) as (L2 & H2 & HI2 & (T1 & T2 & T3) & Hroom).
   intros E; injection E as <- <-.
   rewrite (apply_all_app LO L e1 _ _ H1). rewrite (apply_all_app LO L1 e2 _ _ H2).
-  assert (Hh2 : c_hra c2 = c_hra c) by (unfold c0 in *; simpl in *; congruence).
+  assert (Hh2 : c_hra c2 = c_hra c) by (unfold c0 in S2; cbn [c_hra mkc] in S2; congruence).
   destruct HO as (-> & Hno & Hbo & _). pose proof (begin_end o Hno) as Hbeo.
   destruct HI2 as (-> & Hn2 & Hb2 & Hs2 & Hns2). pose proof (begin_end c2 Hn2) as Hbe2.
   destruct (N.ltb_spec 0 (c_num o)) as [Hpos|Hz].
@@ -212,11 +212,11 @@ Proof.
                     (c_blk o) true (c_cap o) (if c_hra o then c_cap o - c_num o else 0) ((if c_hra o then c_cap o - c_num o else 0) + c_num o)
                     (if c_hra o then c_cap o - c_num o else 0)
                     (c_blk c2) true (c_cap c2) 0 (0 + c_num c2) (c_num o)) as H.
-      rewrite N.add_0_l in H. rewrite H; try lia; [|apply lookup_hd].
+      rewrite N.add_0_l in H. rewrite ?N.add_0_l. rewrite H; try lia; [|apply lookup_hd].
       eexists. split; [reflexivity|]. unfold CInv, c_begin. csimpl. rewrite Hh2. split; [|rsplit; auto; lia].
       split; [|rsplit; auto; lia]. apply one_blk_eq; lia.
-  - assert (c_num o = 0) by lia. eexists. split; [reflexivity|]. unfold CInv, c_begin. csimpl. rewrite Hh2.
-    split; [|auto]. split; [|rsplit; auto; lia]. apply one_blk_eq; lia.
+  - assert (c_num o = 0) by lia. eexists. split; [reflexivity|]. unfold CInv, c_begin in *. csimpl. rewrite Hh2 in *.
+    split; [|auto]. split; [|rsplit; auto; lia]. destruct (c_hra c); apply one_blk_eq; lia.
 Qed.
 
 Lemma comp_copy_ok o LO c e : CInv o LO -> comp_copy o = (c, e) -> exists L, apply_all LO [] e = Some L /\ CInv c L /\ c_hra c = c_hra o.
@@ -228,8 +228,8 @@ Proof.
     rewrite (fromx1_above _ (c_blk o) true (c_cap o) (c_begin o) (c_begin o + c_num o) (c_begin o) 0 true (c_cap o) (c_begin o) (c_begin o) (c_num o));
       try lia; [|apply lookup_hd].
     eexists. split; [reflexivity|]. unfold CInv, c_begin. csimpl. rsplit; auto; try reflexivity; try lia.
-  - assert (c_num o = 0) by lia. eexists. split; [reflexivity|]. unfold CInv, c_begin in *. csimpl.
-    split; [|rsplit; auto; lia]. rewrite H0, N.add_0_r. f_equal. f_equal. apply mkblk_empty_eq; destruct (c_hra o); lia.
+  - assert (c_num o = 0) by lia. eexists. split; [reflexivity|]. unfold CInv, c_begin in *. csimpl. rewrite H0 in *. rewrite N.add_0_r.
+    split; [split; [|rsplit; auto; lia]|reflexivity]. f_equal. f_equal. apply mkblk_empty_eq; destruct (c_hra o); lia.
 Qed.
 
 Lemma comp_destroy_ok X c L : CInv c L -> apply_all X L (comp_destroy c) = Some [].
@@ -242,7 +242,7 @@ Lemma comp_live c L : CInv c L -> live_slots L = c_num c /\ item_slots L = c_cap
 Proof.
   intros (-> & Hn & _). pose proof (begin_end c Hn). split.
   - rewrite live_slots_one by lia. lia.
-  - unfold item_slots. csimpl. lia.
+  - unfold item_slots. cbn [fold_right snd b_ty b_size mkblk]. lia.
 Qed.
 
 (* ---- the sketch ---- *)
@@ -329,7 +329,7 @@ Proof.
   induction cs as [|[c L] t IH]; intros os bad cs' bad' HC HO; cbn [merge_comps].
   - intros E; injection E as <- <-. auto.
   - destruct os as [|[o LO] ot]. { intros E; injection E as <- <-. auto. }
-    inversion HC as [|? ? [HIc Hhc] HCt]; subst. inversion HO as [|? ? [HIo Hho] HOt]; subst. simpl in *.
+    inversion HC as [|? ? [HIc Hhc] HCt]; subst. inversion HO as [|? ? [HIo Hho] HOt]; subst. cbn [fst snd] in *.
     destruct (comp_merge tab c o) as [c' e] eqn:EM.
     destruct (comp_merge_ok tab c L o LO c' e HIc HIo ltac:(congruence) EM) as (L' & A & B & C).
     rewrite (judgeq_ok _ _ _ _ A).
@@ -362,7 +362,7 @@ Proof.
   assert (H : Forall (fun p => CInv (fst p) (snd p) /\ c_hra (fst p) = q_hra o)
                 (map fst (map (fun p => let '(c, e) := comp_copy (fst p) in let '(L, b) := judgeq (snd p) [] e in ((c, L), b)) (q_comps o))) /\
               existsb snd (map (fun p => let '(c, e) := comp_copy (fst p) in let '(L, b) := judgeq (snd p) [] e in ((c, L), b)) (q_comps o)) = false).
-  { induction HF as [|[c L] t [HI Hh] Ht IH]; cbn [map existsb fst snd]; [auto|].
+  { induction HF as [|[c L] t [HI Hh] Ht IH]; cbn [map existsb fst snd]; [auto|]. cbn [fst snd] in HI, Hh.
     destruct (comp_copy c) as [c' e] eqn:EC. destruct (comp_copy_ok c L c' e HI EC) as (L' & A & B & C).
     rewrite (judgeq_ok _ _ _ _ A). cbn [map existsb fst snd orb]. destruct IH as [I1 I2]. split; auto. constructor; auto. csimpl. split; auto. congruence. }
   destruct H as [H1 H2]. split; auto. split; auto.
@@ -382,11 +382,16 @@ Proof.
   unfold new_comp in E. injection E as <- _. reflexivity.
 Qed.
 
+Lemma live_slots_cons b x L : live_slots ((b, x) :: L) = count_true (b_map x) + live_slots L.
+Proof. reflexivity. Qed.
+Lemma item_slots_cons b x L : item_slots ((b, x) :: L) = (if b_ty x then b_size x else 0) + item_slots L.
+Proof. reflexivity. Qed.
+
 Lemma req_live s : QInv s -> live_slots (q_ledger s) = sum_num (q_comps s).
 Proof.
   intros [_ HF]. unfold q_ledger. induction HF as [|[c L] t [HI _] Ht IH]; cbn [flat_map]; auto.
-  destruct HI as (-> & Hn & _). pose proof (begin_end c Hn). cbn [snd app].
-  unfold live_slots in *. cbn [fold_right snd b_map mkblk sum_num fst]. rewrite count_true_rng by lia. rewrite IH. lia.
+  cbn [fst snd] in HI. destruct HI as (-> & Hn & _). pose proof (begin_end c Hn). cbn [snd app].
+  rewrite live_slots_cons. cbn [b_map mkblk sum_num fold_right fst]. rewrite count_true_rng by lia. fold (sum_num t). rewrite IH. lia.
 Qed.
 
 Definition sum_cap (cs : list (comp * ledger)) : N := fold_right (fun p a => c_cap (fst p) + a) 0 cs.
@@ -394,8 +399,8 @@ Definition sum_cap (cs : list (comp * ledger)) : N := fold_right (fun p a => c_c
 Lemma req_caps s : QInv s -> item_slots (q_ledger s) = sum_cap (q_comps s).
 Proof.
   intros [_ HF]. unfold q_ledger. induction HF as [|[c L] t [HI _] Ht IH]; cbn [flat_map]; auto.
-  destruct HI as (-> & Hn & _). cbn [snd app].
-  unfold item_slots in *. cbn [fold_right snd b_ty b_size mkblk sum_cap fst]. rewrite IH. lia.
+  cbn [fst snd] in HI. destruct HI as (-> & Hn & _). cbn [snd app].
+  rewrite item_slots_cons. cbn [b_ty b_size mkblk sum_cap fold_right fst]. fold (sum_cap t). rewrite IH. lia.
 Qed.
 
 Lemma req_destroy_moved_from s : req_destroy (req_moved_from s) = false.
